@@ -33,6 +33,9 @@ type Thread struct {
 	blockOp string
 	killed  bool
 	low     bool // demoted: runs only when no thread of normal priority can (Config.Demote)
+	// sleepUntil: a thread demoted with the sleeping variant (Config.DemoteSleep) also lets the
+	// timers due up to this instant of virtual time fire before it runs
+	sleepUntil int64
 }
 
 type timer struct {
@@ -66,6 +69,11 @@ type Config struct {
 	TimerFirstWindow int64
 	// Demote adds the deviation "demote the running thread" (see schedule).
 	Demote bool
+	// DemoteSleep > 0 adds a second variant of that deviation: the demoted thread stands still for
+	// this much virtual time as well, i.e. timers due within it fire before the thread runs even
+	// when nothing else can run (a thread that is late by some hundred milliseconds: page fault,
+	// slow disk, busy machine). Without it a demoted thread still runs before the clock advances.
+	DemoteSleep int64
 	// LowThreads honours threads started with GoLow (they run only when nothing else can, or
 	// when a deviation of cost 1 picks them) without offering self-demotion everywhere.
 	LowThreads bool
@@ -346,6 +354,16 @@ func (x *Exec) timerWithin(d int64) bool {
 	return false
 }
 
+// timerDueBy reports whether a live timer is due at or before the instant t.
+func (x *Exec) timerDueBy(t int64) bool {
+	for _, tm := range x.timers {
+		if !tm.dead && tm.at <= t {
+			return true
+		}
+	}
+	return false
+}
+
 func (x *Exec) hasTimer() bool {
 	for _, tm := range x.timers {
 		if !tm.dead {
@@ -391,6 +409,23 @@ func (x *Exec) schedule(self *Thread, selfDone bool, label string) {
 				opts = append(opts, t)
 			}
 		}
+		sleepers := 0
+		if x.cfg.DemoteSleep > 0 {
+			// a sleeping demoted thread is out of the way while a timer is due within its sleep
+			k := 0
+			for _, t := range opts {
+				if t.low && t.sleepUntil > x.clock && x.timerDueBy(t.sleepUntil) {
+					sleepers++
+					continue
+				}
+				opts[k] = t
+				k++
+			}
+			opts = opts[:k]
+			if selfEnabled && (k == 0 || opts[0] != self) {
+				selfEnabled = false
+			}
+		}
 		nNormal := len(opts)
 		if x.cfg.Demote || x.cfg.LowThreads {
 			// demoted threads come after every thread of normal priority
@@ -412,6 +447,9 @@ func (x *Exec) schedule(self *Thread, selfDone bool, label string) {
 			if x.fireTimer() {
 				continue
 			}
+			if sleepers > 0 {
+				panic("vrt: sleeping thread without a timer")
+			}
 			x.deadlock("deadlock")
 			x.park(self)
 		}
@@ -432,6 +470,10 @@ func (x *Exec) schedule(self *Thread, selfDone bool, label string) {
 		if demoteOpt {
 			nopt++
 		}
+		sleepOpt := demoteOpt && x.cfg.DemoteSleep > 0 && x.timerDueBy(x.clock+x.cfg.DemoteSleep)
+		if sleepOpt {
+			nopt++
+		}
 		if nopt > 1 {
 			costs := make([]int, nopt)
 			for i := range opts {
@@ -449,7 +491,15 @@ func (x *Exec) schedule(self *Thread, selfDone bool, label string) {
 			x.fireTimer()
 			continue
 		}
-		if demoteOpt && idx == nopt-1 {
+		if sleepOpt && idx == nopt-1 {
+			self.low = true
+			self.sleepUntil = x.clock + x.cfg.DemoteSleep
+			if TraceFn != nil {
+				TraceFn(fmt.Sprintf("step %d %s@%s demoted, asleep for %dms", x.steps, self.Name, label, x.cfg.DemoteSleep/1e6))
+			}
+			continue
+		}
+		if demoteOpt && ((!sleepOpt && idx == nopt-1) || (sleepOpt && idx == nopt-2)) {
 			self.low = true
 			if TraceFn != nil {
 				TraceFn(fmt.Sprintf("step %d %s@%s demoted", x.steps, self.Name, label))
@@ -470,6 +520,7 @@ func (x *Exec) schedule(self *Thread, selfDone bool, label string) {
 		}
 		if idx > 0 && next.low {
 			next.low = false // picked explicitly: back to normal priority
+			next.sleepUntil = 0
 		}
 		if next == self {
 			self.pred = nil
